@@ -332,7 +332,7 @@ func parseCondition(firstSnippet *snippet, getSnippet func() (*snippet, error)) 
 	return Where(firstSnippet.text, operator, value.text), nil
 }
 
-var escapeReplacer = regexp.MustCompile(`\\([^\\])`)
+var escapeReplacer = regexp.MustCompile(`(?s)\\(.)`)
 
 // prepToken removes surrounding parenthesis and escape characters.
 func prepToken(text string) string {
@@ -344,7 +344,9 @@ func escapeString(token string) string {
 	// check if token contains characters that need to be escaped
 	if strings.ContainsAny(token, "()\"\\\t\r\n ") {
 		// put the token in parenthesis and only escape \ and "
-		return fmt.Sprintf("\"%s\"", strings.ReplaceAll(token, "\"", "\\\""))
+		token = strings.ReplaceAll(token, "\\", "\\\\")
+		token = strings.ReplaceAll(token, "\"", "\\\"")
+		return fmt.Sprintf("\"%s\"", token)
 	}
 	return token
 }
